@@ -13,6 +13,7 @@ CONSTANTS
   CallValues = {0, 1, 9}
   CallReqs <- QuickCallReqs
   CreateValues = {0, 1}
+  NatTargets = {}
 INVARIANTS TypeOK GasNeverGrows Conservation FinalState
 PROPERTIES FrameAtomic ValueStaysWithCaller
 ACTION_CONSTRAINT Edge
